@@ -3,7 +3,7 @@
 cd "$(dirname "$0")/.."
 T="${1:-quick}"
 for p in C01 C02 C03 C04 C05 C06 C07 C08 C09 C10 C11 C12 C13 C14 C15 C16 C17 C18 C19 C20; do
-  ./check $p --tier $T > /tmp/runall_$p.log 2>&1; rc=$?
-  echo "rc=$rc $(tail -1 /tmp/runall_$p.log)"
-  grep -h "^VIOLATION\|^CHECKER-ERROR\|^UNDECIDED" /tmp/runall_$p.log | head -5
+  ./check $p --tier $T > /var/tmp/runall_$p.log 2>&1; rc=$?
+  echo "rc=$rc $(tail -1 /var/tmp/runall_$p.log)"
+  grep -h "^VIOLATION\|^CHECKER-ERROR\|^UNDECIDED" /var/tmp/runall_$p.log | head -5
 done
